@@ -40,6 +40,12 @@ func C09(t *rapid.T) *world.Scenario {
 	slots := make([]*slot, nres)
 	for i := range slots {
 		slots[i] = &slot{res: ResourceNames[rapid.IntRange(0, len(ResourceNames)-1).Draw(t, "res"+itoa(int64(i)))]}
+		if Pct(t, "exactlen"+itoa(int64(i)), 30) {
+			// a URI whose cache key has an exactly drawn length (every length in the range where
+			// file names, fragments and other size limits of a backend may sit)
+			n := rapid.IntRange(150, 330).Draw(t, "keylen"+itoa(int64(i)))
+			slots[i].res = ExactLenResource(n)
+		}
 		if Pct(t, "vary"+itoa(int64(i)), 35) {
 			slots[i].vary = Pick(t, "varyf"+itoa(int64(i)), "Accept-Encoding", "Accept-Language", "X-A")
 		}
